@@ -8,5 +8,6 @@ LEVEL = 'proof'
 
 
 def run(res, args):
-    from . import c10_names
+    from . import c10_names, c10_refs
     c10_names.run(res, args)
+    c10_refs.run(res)
